@@ -350,6 +350,6 @@ def replay(case, ctx):
     definitions = {}
     if case.get("definitions_mode") == "inside":
         for k, sub in enumerate([c for c in sut.get_children(element) if not isinstance(c, type)][:4]):
-            definitions[def_key(rng, k)] = sub
+            definitions[def_key(ctx.rng, k)] = sub
     check_tree(ctx, sut, element, [], definitions, model, values,
                {k: v for k, v in case.items() if k != "value"}, False, isinstance(element, sut.Nothing))
